@@ -8,6 +8,7 @@ import Poulpy.Lemmas.Fft64Instance
 import Poulpy.Lemmas.Fft64Vmp
 import Poulpy.Lemmas.F64Mono
 import Poulpy.Lemmas.Fft64AvxAgree
+import Poulpy.Lemmas.Fft64AvxVmpNumeric
 
 /-!
 # C07 — DFT-domain products equal exact negacyclic (bivariate) convolution
@@ -1422,6 +1423,43 @@ theorem fft64_vmp_ref_avx_agree (K : Nat) (hK2 : 2 ≤ K) (omg iomg : Array Nat)
   vmp_ref_avx_agree K hK2 omg iomg τ Ma Mb rows hacc hlen hM hdomA hdomR
 
 theorem fft64avx_vmp_domain_example : VmpDomainAvx 2 3 τ51 4096 4096 := vmpDomainAvx_example
+
+/-- `VmpDomain` follows from its main inequality alone (all range side conditions are consequences) -/
+theorem fft64_vmp_domain_of_main (K R : Nat) (τ Ma Mb : ℝ) (hτ0 : 0 ≤ τ) (hτ1 : τ ≤ 1) (hK : K ≤ 1022) (hR : 1 ≤ R)
+    (hMa : 1 ≤ Ma) (hMb : 1 ≤ Mb)
+    (hmain : errB (γi τ) K (accR K R τ Ma Mb).2 (accR K R τ Ma Mb).1 / 2 ^ K * (1 + u) + u * (accR K R τ Ma Mb).2 + η < 1 / 2) :
+    VmpDomain K R τ Ma Mb := vmpDomain_of_main K R τ Ma Mb hτ0 hτ1 hK hR hMa hMb hmain
+
+/-- **`VmpDomain` in numbers** (FFT64Ref, `τ = 2^-51`, `n = 8 … 65536`, up to 64 rows): `rows·Ma·Mb ≤ 2^(domBitsV K)`,
+`domBitsV = 40, 37, 35, 33, 31, 29, 26, 24, 22, 20, 18, 16, 14, 12` for `K = 2 … 15`, i.e.
+`n·rows·Ma·Mb ≤ 2^43, 2^41, 2^40, 2^39, 2^38, 2^37, 2^35, 2^34, 2^33, 2^32, 2^31, 2^30, 2^29, 2^28`;
+growth `(Gv−1)(1+u)+u ≤ (20K + 70)·2^-53` -/
+theorem fft64_vmp_domain_numeric (K : Nat) (hK2 : 2 ≤ K) (hK : K ≤ 15) (R : Nat) (hR1 : 1 ≤ R) (hR : R ≤ 64) (Ma Mb : ℝ)
+    (hMa : 1 ≤ Ma) (hMb : 1 ≤ Mb) (h : R * (Ma * Mb) ≤ (2:ℝ) ^ (domBitsV K)) : VmpDomain K R τ51 Ma Mb :=
+  vmpDomain_numeric K hK2 hK R hR1 hR Ma Mb hMa hMb h
+
+/-- **`VmpDomainAvx` in numbers** (FFT64Avx, mat1col kernel): `rows·Ma·Mb ≤ 2^(domBitsVA K)`,
+`domBitsVA = 38, 36, 34, 32, 30, 27, 25, 23, 21, 19, 17, 15, 13, 11` for `K = 2 … 15`; growth `≤ (41K + 197)·2^-53` -/
+theorem fft64avx_vmp_domain_numeric (K : Nat) (hK : K ≤ 15) (R : Nat) (hR1 : 1 ≤ R) (hR : R ≤ 64) (Ma Mb : ℝ)
+    (hMa : 1 ≤ Ma) (hMb : 1 ≤ Mb) (h : R * (Ma * Mb) ≤ (2:ℝ) ^ (domBitsVA K)) : VmpDomainAvx K R τ51 Ma Mb :=
+  vmpDomainAvx_numeric K hK R hR1 hR Ma Mb hMa hMb h
+
+/-- vmp on both back ends with numbers only: exact and equal when `rows·Ma·Mb ≤ 2^(domBitsVA K)` -/
+theorem fft64_vmp_ref_avx_agree_numeric (K : Nat) (hK2 : 2 ≤ K) (hK : K ≤ 15) (omg iomg : Array Nat) (Ma Mb : ℝ)
+    (rows : List (Poly × Poly)) (hacc : TableAccurate τ51 K omg iomg)
+    (hlen : ∀ r ∈ rows, r.1.length = 2 ^ (K + 1) ∧ r.2.length = 2 ^ (K + 1))
+    (hM : ∀ r ∈ rows, (∀ c ∈ r.1, c.natAbs ≤ 2 ^ 50 - 1 ∧ |(c:ℝ)| ≤ Ma) ∧ (∀ c ∈ r.2, c.natAbs ≤ 2 ^ 50 - 1 ∧ |(c:ℝ)| ≤ Mb))
+    (hR1 : 1 ≤ rows.length) (hR : rows.length ≤ 64) (hMa : 1 ≤ Ma) (hMb : 1 ≤ Mb)
+    (h : rows.length * (Ma * Mb) ≤ (2:ℝ) ^ (domBitsVA K)) :
+    vmpPipelineAvx K omg iomg 1 rows = .ok (Hal.sumPolys (2 ^ (K + 1)) (rows.map (fun r => Hal.negMul r.1 r.2))) ∧
+    vmpPipelineAvx K omg iomg 1 rows = .ok (Fft64.vmpPipeline K omg iomg rows) := by
+  have hle : (2:ℝ) ^ (domBitsVA K) ≤ (2:ℝ) ^ (domBitsV K) := by
+    apply pow_le_pow_right₀ (by norm_num)
+    interval_cases K <;> simp [domBitsVA, domBitsV]
+  have dA := fft64avx_vmp_domain_numeric K hK rows.length hR1 hR Ma Mb hMa hMb h
+  have dR := fft64_vmp_domain_numeric K hK2 hK rows.length hR1 hR Ma Mb hMa hMb (le_trans h hle)
+  exact ⟨fft64avx_vmp_exact K hK2 omg iomg τ51 Ma Mb rows hacc hlen hM dA,
+    fft64_vmp_ref_avx_agree K hK2 omg iomg τ51 Ma Mb rows hacc hlen hM dA dR⟩
 
 /- FULL STATEMENT (not proved): `fft64avx_vmp_exact` for the 2-column kernels (`reim4_vec_mat2cols_product_avx`,
    `…_2ndcol_product_avx`: `re = fmsub(ur, ar, fmsub(ui, ai, re))`), which the same entry point uses when the matrix has more
